@@ -317,6 +317,40 @@ fn norm_version(e: &[Vec<RelExp>]) -> Vec<Vec<RelExp>> {
         r.version = r.version.map(|(op, v)| (op, v.parse::<debversion::Version>().map(|x| x.to_string()).unwrap_or(v))); r }).collect()).collect()
 }
 
+/// LONG restriction lists (33 / 70 / 300 architectures, terms in a profile group, profile groups), with the reading
+/// known by construction: both readers, and the lossy print / re-read
+pub fn long_lists(o: &mut Outcome, feats: &[String]) {
+    let feats = feats.to_vec();
+    o.count("long_lists");
+        for n in [33usize, 70, 300] {
+            let archs: Vec<String> = (0..n).map(|i| format!("{}a{}", if i % 3 == 1 { "!" } else { "" }, i)).collect();
+            let terms: Vec<(bool, String)> = (0..n).map(|i| (i % 2 == 1, format!("p{}", i))).collect();
+            let groups: Vec<Vec<(bool, String)>> = std::iter::once(terms.clone()).chain((0..n).map(|i| vec![(false, format!("g{}", i))])).collect();
+            let exp = vec![vec![RelExp { name: "foo".into(), aq: None, version: Some((">=".into(), "1.0".into())), archs: Some(archs.clone()), profs: groups.clone() }], vec![RelExp { name: "bar".into(), aq: None, version: None, archs: None, profs: vec![] }]];
+            let text = format!("{}, bar", canon_rel(&exp[0][0]));
+            let f2 = { let mut f = feats.clone(); f.push("long_lists".into()); f };
+            o.evals += 1;
+            match guarded("Relations::from_str", || Relations::from_str(&text)) {
+                Ok(Ok(r)) => match lossless_structure(&r) { Ok((es, _)) => if es != norm_version(&exp) { o.v("C10", "struct_lossless", "lossless accessors", "mismatch", &f2, &text, format!("{} architectures / terms / groups: structure differs", n)); }, Err(m) => o.v("C10", "struct_lossless", "lossless accessors", "panic", &f2, &text, m) },
+                Ok(Err(e)) => o.v("C10", "accept_lossless", "Relations::from_str", "mismatch", &f2, &text, format!("well-formed field rejected: {}", e)),
+                Err(m) => o.v("C10", "accept_lossless", "Relations::from_str", "panic", &f2, &text, m),
+            }
+            match guarded("lossy::Relations::from_str", || debian_control::lossy::Relations::from_str(&text)) {
+                Ok(Ok(r)) => {
+                    if lossy_structure(&r) != norm_version(&exp) { o.v("C10", "struct_lossy", "lossy::Relations::from_str", "mismatch", &f2, &text, format!("{} architectures / terms / groups: structure differs", n)); }
+                    // (C14) the lossy value prints to text that reads back as the same value
+                    match guarded("lossy::Relations::from_str", || debian_control::lossy::Relations::from_str(&r.to_string())) {
+                        Ok(Ok(back)) => if back != r { o.v("C14", "lossy_roundtrip", "lossy::Relations::from_str", "mismatch", &f2, &text, "re-read value differs".into()); },
+                        Ok(Err(e)) => o.v("C14", "lossy_roundtrip", "lossy::Relations::from_str", "mismatch", &f2, &text, format!("printed value rejected: {}", e)),
+                        Err(m) => o.v("C14", "lossy_roundtrip", "lossy::Relations::from_str", "panic", &f2, &text, m),
+                    }
+                }
+                Ok(Err(e)) => { o.v("C10", "accept_lossy", "lossy::Relations::from_str", "mismatch", &f2, &text, format!("well-formed field rejected: {}", e)); o.v("C14", "lossy_roundtrip", "lossy::Relations::from_str", "mismatch", &f2, &text, format!("canonical text rejected: {}", e)); }
+                Err(m) => o.v("C10", "accept_lossy", "lossy::Relations::from_str", "panic", &f2, &text, m),
+            }
+        }
+}
+
 pub fn run_docs(case: &Value, _seed: u64) -> Outcome {
     let mut o = Outcome::default();
     let feats = doc_features(case);
@@ -382,6 +416,7 @@ pub fn run_docs(case: &Value, _seed: u64) -> Outcome {
         }
         if o.sample.is_null() { o.sample = json!({"text": text, "expected": format!("{:?}", items), "features": feats}); }
     }
+    if crate::conc::hash64(&o.key) % 97 == 0 { long_lists(&mut o, &feats); }
     o
 }
 
